@@ -3,7 +3,7 @@
     writes is read back as the (normalised) value the function returned.  Lemmas only; the model
     is C01/Call.v over C01/XmlX.v. *)
 From Coq Require Import ZArith List Bool Lia ZifyBool.
-From SpyneV Require Import C01.Univ C01.XmlX C01.Call C01.XmlXProofs.
+From SpyneV Require Import C01.Univ C01.XmlX C01.Call C01.CallSpec C01.XmlXProofs.
 Import ListNotations.
 Open Scope Z_scope.
 
@@ -91,13 +91,6 @@ Proof.
   destruct (IH z Hz) as [x' [H1 H2]]. exists x'. split; [right; exact H1|exact H2].
 Qed.
 
-(** header classes with pairwise distinct qualified names *)
-Fixpoint hdr_distinct (U : universe) (cs : list cid) : bool :=
-  match cs with
-  | [] => true
-  | c :: r => forallb (fun d => negb (text_eqb (cls_ns U c) (cls_ns U d) && text_eqb (cls_name U c) (cls_name U d))) r
-              && hdr_distinct U r
-  end.
 
 Definition cfgV (V : vmode) (Sv : service) : xcfg :=
   mkxcfg (match V with ValSoft => true | _ => false end).
@@ -199,7 +192,6 @@ Lemma firstn_all_pad {A} (l : list A) (x : A) n : length l = n -> firstn n (l ++
 Proof. intros <-. rewrite firstn_app, Nat.sub_diag, firstn_all. cbn. apply app_nil_r. Qed.
 
 (* ------------------------------------------------------------------ the call *)
-From SpyneV Require Import C01.CallSpec.
 
 Definition open_doc (P : proto) (doc : xnode) : fcode + (option (list xnode) * option xnode) :=
   match P with PXml => inr (None, Some doc) | _ => from_soap P doc end.
